@@ -328,18 +328,21 @@ PROPS["C09"] = {
     "jobs": [{"pkg": "provider/gateway/utils", "files": ["harness/C09/auth.go"], "shims": ["shim.go.tmpl", "shim_cert.go.tmpl"],
               "quick": ["Harness_C09_verify"], "thorough": ["Harness_C09_verify"], "opts": {"timeout": 20000, "witness": 8},
               "reach": {"Harness_C09_verify": ["accepted", "genuine-accepted", "rejected", "no-certificate"]}},
+             {"pkg": "provider/gateway/utils", "files": ["harness/C09/auth.go", "harness/C09/sessions.go"], "shims": ["shim.go.tmpl", "shim_cert.go.tmpl"],
+              "quick": ["Harness_C09_sessions"], "thorough": ["Harness_C09_sessions"], "opts": {"timeout": 20000, "witness": 4},
+              "reach": {"Harness_C09_sessions": ["second-accepted", "second-rejected"]}},
              {"pkg": "provider/gateway/rest", "files": ["harness/C09/scope.go"], "shims": ["shim.go.tmpl", "shim_loop.go.tmpl"],
               "quick": C09_S, "thorough": C09_S, "opts": {"timeout": 20000, "witness": 3, "transparent": ["github.com/gorilla/context"]},
               "reach": dict((h, ["backend-called"]) for h in C09_S[:6])},
              {"pkg": "provider/gateway/rest", "files": ["harness/C09/scope.go", "harness/C09/shell.go"], "shims": ["shim.go.tmpl", "shim_loop.go.tmpl"],
               "quick": ["Harness_C09_shell_overlap"], "thorough": ["Harness_C09_shell_overlap"], "opts": {"timeout": 20000, "witness": 2, "transparent": ["github.com/gorilla/context"]},
               "reach": {"Harness_C09_shell_overlap": ["both-served"]}}],
-    "bounds": {"quick": "VerifyPeerCertificate of the real NewServerTLSConfig: on-chain certificate of account X present/absent, valid/revoked, symbolic serial; presented certificate with CN in {X, another account, not an address}, issuer equal or different, same or different (symbolic) serial, the on-chain key or another key, self-signed or signed by the other key, inside/outside its validity window when the gateway starts and (independently) when the client connects, with/without client-auth usage, chain length 0/1/2; request scoping: every scoped route of the real newRouter (6 today, room for 8), with/without verified peer certificate, each sequence variable a symbolic uint64 / non-numeric / out of range, 3 query strings (empty, stream parameters, another owner+provider+sequence numbers), deployment active or not; lease shell: two tenants' requests overlapping (the second served completely inside the first one's IsActive call), symbolic sequence numbers, through the websocket upgrade to cluster Exec",
+    "bounds": {"quick": "VerifyPeerCertificate of the real NewServerTLSConfig: on-chain certificate of account X present/absent, valid/revoked, symbolic serial; presented certificate with CN in {X, another account, not an address}, issuer equal or different, same or different (symbolic) serial, the on-chain key or another key, self-signed or signed by the other key, inside/outside its validity window when the gateway starts and (independently) when the client connects, with/without client-auth usage, chain length 0/1/2; request scoping: every scoped route of the real newRouter (6 today, room for 8), with/without verified peer certificate, each sequence variable a symbolic uint64 / non-numeric / out of range, 3 query strings (empty, stream parameters, another owner+provider+sequence numbers), deployment active or not; lease shell: two tenants' requests overlapping (the second served completely inside the first one's IsActive call), symbolic sequence numbers, through the websocket upgrade to cluster Exec; sessions: two consecutive connections of the holder of the valid on-chain certificate against the tls.Config returned by NewServerTLSConfig, the certificate revoked or not in between, the second connection offering the first one's session ticket or not",
                "thorough": "same"},
     "stubs": COMMON_STUBS + ["x509.ParseCertificate / pem.Decode / CertPool.AddCert / Certificate.Verify -> certificate tokens with the contract: Verify succeeds iff the certificate is one of the roots (identical certificate) or a CA root's key signed it (account certificates are not CAs), it is inside its validity window at VerifyOptions.CurrentTime (or now when zero) and carries the requested usage (natively: real certificates, real ECDSA, real crypto/x509)", "time.Now -> two-epoch harness clock (gateway start / handshake)", "cert QueryClient -> harness stub answering from one modelled on-chain certificate",
               "gorilla/mux NewRouter/Use/PathPrefix/Subrouter/HandleFunc/Methods/Vars -> recording model in the harness (natively the real mux serves real requests)", "http.Error, writeJSON, json.NewDecoder/Decode, websocket Upgrader.Upgrade, wsEventWriter/wsLogWriter -> harness stubs (stream writers reduced to their cluster query)", "provider/cluster/manifest clients -> recording fakes"],
     "outside_claim": ["X.509/ECDSA/TLS mathematics, PEM/DER parsing", "gorilla mux path matching and method routing", "concurrent requests other than the one modelled interleaving (a second tenant's shell request served completely while the first is inside its IsActive call)", "routes not under /lease/ or /deployment/", "the cert module's querier itself (C17)"],
-    "assumptions": ["tls.Config.VerifyPeerCertificate is the only admission decision (InsecureSkipVerify is set by the code)"],
+    "assumptions": ["crypto/tls follows its documented Config contract: a full handshake calls VerifyPeerCertificate then VerifyConnection; unless SessionTicketsDisabled is set a ticket is issued and a connection offering it is resumed with the ticket's peer certificates, calling only VerifyConnection (InsecureSkipVerify is set by the code, so nothing else decides admission)"],
 }
 
 C15_Q = ["Harness_C15_root_0", "Harness_C15_root_2", "Harness_C15_sub_0_2", "Harness_C15_sub_1_0", "Harness_C15_sub_1_1", "Harness_C15_sub_2_0", "Harness_C15_sub_2_2", "Harness_C15_root_2d", "Harness_C15_sub_1_2d", "Harness_C15_sequence_0_4", "Harness_C15_sequence_1_5"]
